@@ -22,7 +22,7 @@ from __future__ import annotations
 
 import ast
 
-from ..astutil import attr_chain, callee_name, calls, is_name, text
+from ..astutil import call_recv, attr_chain, callee_name, calls, is_name, text
 from ..core import Result
 from ..lexmodel import LexModel
 from ..model import AnchorMissing, Repo, fold_str, walk_no_nested
@@ -36,7 +36,7 @@ def _group_of(expr) -> str | None:
     e = expr
     if isinstance(e, ast.Call) and is_name(e.func, "bool") and len(e.args) == 1:
         e = e.args[0]
-    if isinstance(e, ast.Call) and callee_name(e) == "group" and is_name(e.func.value, "match") and len(e.args) == 1 and isinstance(e.args[0], ast.Constant):
+    if isinstance(e, ast.Call) and callee_name(e) == "group" and is_name(call_recv(e), "match") and len(e.args) == 1 and isinstance(e.args[0], ast.Constant):
         return e.args[0].value
     return None
 
@@ -216,7 +216,7 @@ def run(repo: Repo) -> Result:
         if isinstance(st, ast.If) and len(st.body) == 1 and isinstance(st.body[0], ast.Assign) and not st.orelse:
             a = st.body[0]
             v = a.value
-            if isinstance(v, ast.Call) and is_name(v.func.value if isinstance(v.func, ast.Attribute) else None, "value") and is_name(a.targets[0], "value") and not v.args and not v.keywords:
+            if isinstance(v, ast.Call) and is_name(call_recv(v) if isinstance(v.func, ast.Attribute) else None, "value") and is_name(a.targets[0], "value") and not v.args and not v.keywords:
                 if callee_name(v) == "lstrip" and is_name(st.test, "lstrip"):
                     want["lstrip"] = True
                 if callee_name(v) == "rstrip" and _group_of(st.test) == look_group:
